@@ -234,6 +234,28 @@ func vfCheckNoLeak(ctx *vfCtx, key string, baseline map[int]bool) {
 	}
 }
 
+// vfWaitGone waits (bounded) until no goroutine created by a function whose
+// name contains pat is left.
+func vfWaitGone(pat string) {
+	for i := 0; i < 2000; i++ {
+		found := false
+		for _, g := range vfGoroutines() {
+			if strings.Contains(g.CreatedBy, pat) {
+				found = true
+				break
+			}
+		}
+		if !found {
+			return
+		}
+		if i < 20 {
+			runtime.Gosched()
+		} else {
+			time.Sleep(50 * time.Microsecond)
+		}
+	}
+}
+
 func vfShortFunc(fn string) string {
 	fn = strings.TrimPrefix(fn, "github.com/pkg/sftp/internal/encoding/ssh/")
 	fn = strings.TrimPrefix(fn, "github.com/pkg/sftp.")
